@@ -335,9 +335,10 @@ class TypeTransformer:
         else:
             try:
                 # try for iterable of key, value pairs
-                # but data loss may happen in this case
-                # like dict([{"a": 1, "b": 2}]) == {"a": "b"}
-                return t(data)
+                # a mapping is not a pair: dict([{"a": 1, "b": 2}]) == {"a": "b"} would differ from what
+                # the no_data_loss branch above gives for the same input, such a list is unwrapped below
+                if not (isinstance(data, (list, tuple)) and any(isinstance(item, Mapping) for item in data)):
+                    return t(data)
                 # directly return
             except (TypeError, ValueError):
                 pass
